@@ -57,6 +57,10 @@ def run_shard_inprocess(pid: str, spec: dict) -> Acc:
         from . import e2e
 
         e2e.run_shard(spec, acc)
+    elif spec.get("kind") == "combos":
+        from . import combos
+
+        combos.run_shard(pid, spec, acc)
     else:
         mod.run_shard(spec, acc)
     acc.flags["contracts_backend"] = getattr(hub, "contracts_backend", "n/a")
@@ -146,6 +150,10 @@ def main(argv=None) -> int:
 
     if pid in e2e.WEIGHTS:
         specs = specs + e2e.plan_shards(pid, args.tier)  # end-to-end soak on scanned architectures, all monitors armed
+    from . import combos
+
+    if pid in combos.PIDS:
+        specs = specs + combos.plan_shards(pid, args.tier)  # scans under composed options
     for i, s in enumerate(specs):
         s.setdefault("seed", seed * 1000003 + i)
         s["tier"] = args.tier
@@ -183,7 +191,7 @@ def main(argv=None) -> int:
     finally:
         shutil.rmtree(workdir, ignore_errors=True)
 
-    for why in (mod.floors(acc, args.tier) or []) + (e2e.floor(acc, args.tier) if pid in e2e.WEIGHTS else []):
+    for why in (mod.floors(acc, args.tier) or []) + (e2e.floor(acc, args.tier) if pid in e2e.WEIGHTS else []) + (combos.floor(pid, acc, args.tier) if pid in combos.PIDS else []):
         acc.mark_inconclusive(why)
 
     known = load_known()
@@ -290,6 +298,10 @@ def replay(pid, mod, path) -> int:
                 from . import e2e
 
                 e2e.replay(inst["case"], acc)
+            elif isinstance(inst.get("case"), dict) and inst["case"].get("kind") == "combos":
+                from . import combos
+
+                combos.replay(pid, inst["case"], acc)
             else:
                 mod.replay(inst["case"], acc)
             keys = [k for k in acc.violations if k.startswith(pid + ":")]
